@@ -28,6 +28,7 @@ RULE += (' Also: the siblings of a failed tee child are compared to the end (cla
 RULE += (' Also: source / callable failures of the kind RuntimeError caused by Stop(Async)Iteration.')
 RULE += (' Also: faults that are proper subclasses of the standard exception types.')
 RULE += (' Also: inputs in which every occurrence of a key is the very same object.')
+RULE += (' Also: asked once more after the failure, the tool does not use the failed source / callable again.')
 ASSUMPTIONS = ["Stop(Async)Iteration / IndexError are never injected (their meaning is the language's, not the library's)",
                "closing a faulted source is release, not use"]
 EXHAUSTIVE = {"quick": False, "thorough": False}
